@@ -70,7 +70,7 @@ void nmc_enumerate(const nmc::Tier& t, const nmc::Sink& emit) {
                 nmc::each_subset((int)d, [&](const L& ax) { if (ax.empty()) return; emit(Case("named", {{f}, s, ax, {kd}})); L neg(ax); for (auto& v : neg) v -= d; emit(Case("named", {{f}, s, neg, {kd}})); });
                 for (long a = -d; a < d; a++) emit(Case("named1", {{f}, s, {a}, {kd}}));
             }
-            for (long ord = 1; ord <= 2; ord++) { emit(Case("vnorm_none", {s, {ord}, {kd}})); for (long a = -d; a < d; a++) emit(Case("vnorm", {s, {a}, {ord}, {kd}})); }
+            for (long ord = 1; ord <= 3; ord++) { emit(Case("vnorm_none", {s, {ord}, {kd}})); for (long a = -d; a < d; a++) emit(Case("vnorm", {s, {a}, {ord}, {kd}})); }   // ord 3: the reciprocal is not exact in float
         }
         // the OPTIONAL arguments of the named wrappers (each wrapper forwards them itself): sum / prod with dtype int32 over an int8 source whose fold leaves int8 and an
         // initial value, amax / amin with an initial value beyond every element, mean / var / stddev with dtype float64 over an int32 source and ddof 1
@@ -283,17 +283,22 @@ Outcome nmc_execute(const Case& c) {
         };
         auto go = [&](auto ax) -> Outcome {
             auto kd = [&](auto k) -> Outcome {
-                auto fin = [&](const auto& v, auto tag, double rt) -> Outcome { std::string e = elem_ok(v, tag); if (!e.empty()) return Outcome::bad("wrong", e, nontriv); return verdict2(obs2(v), want, nontriv, rt); };
+                // the lazy view (with its generic evaluation) and then the EAGER wrapper na::f(...) with the same options (the wrappers forward every option themselves)
+                auto fin = [&](const auto& v, const auto& eager, auto tag, double rt) -> Outcome {
+                    std::string e = elem_ok(v, tag); if (!e.empty()) return Outcome::bad("wrong", e, nontriv);
+                    Outcome o = verdict2(obs2(v), want, nontriv, rt); if (!o.fail.empty()) return o;
+                    Obs eo = nmc::observe(eager); Outcome o2 = verdict2({eo, eo}, want, nontriv, rt); if (!o2.fail.empty()) o2.fail = "eager wrapper: " + o2.fail; return o2;
+                };
                 if (f <= 1) { auto a = make_arr<int8_t>(r); for (long i = 0; i < n; i++) a.data_[(size_t)i] = (int8_t)r.data[(size_t)i];
-                    if (f == 0) return fin(view::sum(a, ax, nm::int32, (int32_t)5, k), meta::as_value_v<int32_t>, 0);
-                    return fin(view::prod(a, ax, nm::int32, (int32_t)3, k), meta::as_value_v<int32_t>, 0); }
+                    if (f == 0) return fin(view::sum(a, ax, nm::int32, (int32_t)5, k), na::sum(a, ax, nm::int32, (int32_t)5, k), meta::as_value_v<int32_t>, 0);
+                    return fin(view::prod(a, ax, nm::int32, (int32_t)3, k), na::prod(a, ax, nm::int32, (int32_t)3, k), meta::as_value_v<int32_t>, 0); }
                 if (f <= 3) { auto a = make_arr<long>(r);
-                    if (f == 2) return verdict2(obs2(view::amax(a, ax, nm::None, (long)1000, k)), want, nontriv);
-                    return verdict2(obs2(view::amin(a, ax, nm::None, (long)-1000, k)), want, nontriv); }
+                    if (f == 2) return fin(view::amax(a, ax, nm::None, (long)1000, k), na::amax(a, ax, nm::None, (long)1000, k), meta::as_value_v<long>, 0);
+                    return fin(view::amin(a, ax, nm::None, (long)-1000, k), na::amin(a, ax, nm::None, (long)-1000, k), meta::as_value_v<long>, 0); }
                 auto a = make_arr<int32_t>(r); for (long i = 0; i < n; i++) a.data_[(size_t)i] = (int32_t)r.data[(size_t)i];
-                if (f == 4) return fin(view::mean(a, ax, nm::float64, k), meta::as_value_v<double>, rtol);
-                if (f == 5) return fin(view::var(a, ax, nm::float64, 1, k), meta::as_value_v<double>, rtol);
-                return fin(view::stddev(a, ax, nm::float64, 1, k), meta::as_value_v<double>, rtol);
+                if (f == 4) return fin(view::mean(a, ax, nm::float64, k), na::mean(a, ax, nm::float64, k), meta::as_value_v<double>, rtol);
+                if (f == 5) return fin(view::var(a, ax, nm::float64, 1, k), na::var(a, ax, nm::float64, 1, k), meta::as_value_v<double>, rtol);
+                return fin(view::stddev(a, ax, nm::float64, 1, k), na::stddev(a, ax, nm::float64, 1, k), meta::as_value_v<double>, rtol);
             };
             if (keep) return kd(nm::True); return kd(nm::False);
         };
@@ -304,9 +309,10 @@ Outcome nmc_execute(const Case& c) {
         const L& s = c.a[0]; RArr r = source(s, ADD); for (size_t i = 0; i < r.data.size(); i += 2) r.data[i] = -r.data[i];
         auto a = make_arr<double>(r); long ord = o == "vnorm" ? c.a[2][0] : c.a[1][0]; bool keep = (o == "vnorm" ? c.a[3][0] : c.a[2][0]) != 0;
         const L* axp = o == "vnorm" ? &c.a[1] : nullptr;
-        RArr p = r; for (auto& v : p.data) v = ord == 2 ? v * v : std::fabs(v);
+        RArr p = r; for (auto& v : p.data) v = ord == 2 ? v * v : (ord == 3 ? std::fabs(v) * v * v : std::fabs(v));
         ROpt w = ord == 0 ? ref::reduce(p, axp, keep, nullptr, [](double x, double y) { return x > y ? x : y; }) : ref::reduce(p, axp, keep, nullptr, [](double x, double y) { return x + y; });
         if (w && ord == 2) for (auto& v : w->data) v = std::sqrt(v);
+        if (w && ord == 3) for (auto& v : w->data) v = std::cbrt(v);
         auto go = [&](auto ax, auto k) -> Outcome {
             int oo = (int)ord; return verdict2(obs2(view::vector_norm(a, ax, k, oo)), w, true, 1e-9);
         };
